@@ -742,6 +742,10 @@ impl rustc_driver::Callbacks for Cb {
             return Compilation::Continue;
         }
         let s = emit(tcx);
+        // type errors surface while MIR is built: never write facts for a crate that does not compile
+        if tcx.dcx().has_errors().is_some() {
+            return Compilation::Continue;
+        }
         let tmp = format!("{}.tmp.{}", outp, std::process::id());
         std::fs::write(&tmp, s).expect("write facts");
         std::fs::rename(&tmp, &outp).expect("rename facts");
